@@ -447,11 +447,13 @@ def resolveProp (cname : Name) (inherited : List PropRec) (p : PropDef) : Except
           if sp.d.ty != p.ty || sp.d.isArr != p.isArr then .error (cim cimErrInvalidParameter)
           else .ok { d := { p with quals := mergeQuals p.quals sp.d.quals }, origin := sp.origin, propagated := true }
 
-/-- the parameter names of an overriding method must be exactly those of the overridden one: a new parameter goes
-    through `_set_new_object`, a missing one is copied from the superclass, and both assign `propagated` to a
-    CIMParameter, which has no such attribute (AttributeError) -/
-def sameParamNames (a b : List PropDef) : Bool :=
-  a.all (fun p => b.any (fun q => nameEq q.name p.name)) && b.all (fun q => a.any (fun p => nameEq p.name q.name))
+/-- the parameters of an overriding method after `_resolve_objects(new_obj.parameters, <parameters of the method of
+    the same name in the superclass>)`: its own parameters (a parameter has no Override concept, no `propagated` and
+    no `class_origin`; the generated ones carry no Override qualifier), followed by copies of the parameters of the
+    overridden method that it omits, their qualifiers marked propagated -/
+def mergeParams (new inh : List PropDef) : List PropDef :=
+  new ++ (inh.filter (fun sp => !new.any (fun p => nameEq p.name sp.name))).map (fun sp =>
+    { sp with quals := inheritedQuals sp.quals })
 
 /-- mirrors _resolvermixin.py: _resolve_objects for one method of the new class -/
 def resolveMethod (cname : Name) (inherited : List MethodRec) (m : MethodDef) : Except PyExc MethodRec :=
@@ -465,8 +467,8 @@ def resolveMethod (cname : Name) (inherited : List MethodRec) (m : MethodDef) : 
       | none => .error (cim cimErrInvalidParameter)
       | some sm =>
         if sm.d.retTy != m.retTy then .error (cim cimErrInvalidParameter)
-        else if !sameParamNames m.params same.d.params then .error .attributeError
-        else .ok { d := { m with quals := mergeQuals m.quals sm.d.quals }, origin := sm.origin, propagated := true }
+        else .ok { d := { m with quals := mergeQuals m.quals sm.d.quals, params := mergeParams m.params same.d.params },
+                   origin := sm.origin, propagated := true }
 
 /-- mirrors _resolvermixin.py: ResolverMixin._resolve_class — the rejections in their order and the exposed
     properties and methods (those of the new class, then the inherited ones it does not redefine) -/
